@@ -119,6 +119,38 @@ def fits_or_signal(c, n, signal):
 
 def expect(op, l, r, n, mode, prec=None):
     """returns Expect or None (no oracle for this op / operand combination)"""
+    # by-reference operand forms (&a op &b, &a op b, a op &b) have the value semantics of the by-value form
+    if op[-3:] in ('_rr', '_rv', '_vr'):
+        op = op[:-3]
+    if op in ('try_from_str', 'try_from_string', 'parse'):
+        op = 'from_str'
+    if op in ('ne', 'lt', 'le', 'gt', 'ge'):
+        import operator as _o
+        f = {'ne': _o.ne, 'lt': _o.lt, 'le': _o.le, 'gt': _o.gt, 'ge': _o.ge}[op]
+        return Expect(['B:%d' % (1 if f(l.val, r.val) else 0)])
+    if op in ('max', 'min'):
+        # Ord::max returns the second argument when the two compare equal, Ord::min the first
+        if l.val == r.val:
+            w = r if op == 'max' else l
+        else:
+            w = (l if l.val > r.val else r) if op == 'max' else (l if l.val < r.val else r)
+        return Expect([D(w.c, w.n)])
+    if op == 'is_negative':
+        return Expect(['B:%d' % (l.val < 0)])
+    if op == 'is_positive':
+        return Expect(['B:%d' % (l.val > 0)])
+    if op == 'numerator':
+        return Expect(['I:%d' % l.val.numerator])
+    if op == 'denominator':
+        return Expect(['I:%d' % l.val.denominator])
+    if op == 'from_u128':
+        try:
+            u = int(l.s)
+        except Exception:
+            return None
+        if not (0 <= u < 2 ** 128):
+            return None
+        return Expect([D(u, 0)]) if u <= I128_MAX else Expect(['ERR:InternalOverflow'])
     chk = op.startswith('checked_')
     signal = 'NONE' if chk else 'PANIC'
     base = op[8:] if chk else op
